@@ -244,6 +244,16 @@ func VerifC02ReadOne(n int, alpha int) {
 	scope := NewScope()
 	whole := zzRun(func() (Code, int) { return Read(append([]byte{}, src...), scope), 0 })
 	vrt.Assume(whole.class == 0)
+	// known finding C02-eof-drops-sharp-form: a #*bits form is dropped when the
+	// text ends directly behind it, so "the text up to the reported position"
+	// reads as nothing for such a form (region: the text contains #*)
+	sharpStar := false
+	for i := 0; i+1 < len(src); i++ {
+		if src[i] == '#' && src[i+1] == '*' {
+			sharpStar = true
+		}
+	}
+	vrt.Carve("C02-eof-drops-sharp-form", sharpStar)
 	var got Code
 	pos := 0
 	for i := 0; i <= n; i++ {
